@@ -123,20 +123,23 @@ EqT(t1, t2) ==
   NoChange /\ Obs(IF tabs[t1][1] # tabs[t2][1] THEN UNSPEC_H ELSE <<"bool", B(tabs[t1][2] = tabs[t2][2])>>)
 
 \* Counter.count(batch): level A = multiset count; level M = the four branches of the code
-CountT(t, batch) ==
-  /\ tabs' = [tabs EXCEPT ![t] = CountInto(tabs[t], batch)]
+\* counting, for any way of saying how often each key occurs among the samples (F): a plain batch, or a batch given in
+\* compressed form (`countrep`: n copies of one value before / after an ordinary tail - batches far larger than TLC could hold)
+CountGen(t, F(_)) ==
+  /\ tabs' = [tabs EXCEPT ![t] = <<tabs[t][1], [i \in DOMAIN tabs[t][1] |-> tabs[t][2][i] + F(tabs[t][1][i])]>>]
   /\ mtabs' = IF ~HasM(t) THEN mtabs
      ELSE LET mt == mtabs[t]
-              \* samples whose bucket is non-empty (the others are dropped first), then the hits among them
-              live == {i \in DOMAIN batch : mt.buckets[Hash(batch[i], mt.mod) + 1] # <<>>}
-              hits == {i \in live : MHas(mt, batch[i])}
-              binc == [h \in DOMAIN mt.buckets |-> [j \in DOMAIN mt.buckets[h] |-> Cardinality({i \in hits : batch[i] = mt.buckets[h][j]})]]
+              \* samples whose bucket is empty are dropped first, then the hits among the rest are counted per bucket slot
+              binc == [h \in DOMAIN mt.buckets |-> [j \in DOMAIN mt.buckets[h] |-> F(mt.buckets[h][j])]]
+              nohit == \A h \in DOMAIN binc : \A j \in DOMAIN binc[h] : binc[h][j] = 0
           IN [mtabs EXCEPT ![t] = [mod |-> mt.mod, buckets |-> mt.buckets, vals |->
-                IF hits = {} THEN mt.vals                                                      \* `if not rows.size: return`
+                IF nohit THEN mt.vals                                                          \* `if not rows.size: return`
                 ELSE IF mt.vals[1] = "scalar" /\ mt.vals[2] = 0 THEN <<"array", binc>>           \* fresh counter: the histogram itself
                 ELSE IF mt.vals[1] = "scalar" THEN <<"array", [h \in DOMAIN binc |-> [j \in DOMAIN binc[h] |-> mt.vals[2] + binc[h][j]]]>>
                 ELSE <<"array", [h \in DOMAIN binc |-> [j \in DOMAIN binc[h] |-> mt.vals[2][h][j] + binc[h][j]]]>>]]
   /\ hlast' = <<"none">>
+CountT(t, batch) == CountGen(t, LAMBDA k : Occ(batch, k))
+CountRepT(t, v, n, tail) == CountGen(t, LAMBDA k : Occ(tail, k) + (IF k = v THEN n ELSE 0))
 
 HStep(st) ==
   CASE st[1] = "new" -> NewT(st[2], st[3], st[4], st[6])
@@ -152,6 +155,7 @@ HStep(st) ==
     [] st[1] = "eq" -> EqT(st[2], st[3])
     [] st[1] \in {"items", "to_dict"} -> Items(st[2])
     [] st[1] = "count" -> CountT(st[2], st[3])
+    [] st[1] = "countrep" -> CountRepT(st[2], st[3], st[4], st[5])          \* st[6]: where the copies stand ("head" | "tail")
     [] OTHER -> FALSE
 \* (a "new" step may carry a 7th element naming an earlier table whose caller-side arrays the harness re-uses: level A ignores it,
 \*  because a table built from the same arrays is simply another table with the constructor's values)
